@@ -123,11 +123,11 @@ class Registry:
         from .strings import uf as _uf
 
         self.spec_natives["is_ascii"] = lambda it, a, k: VBool(_uf("is_ascii", STR, BOOL)((a[0].val if isinstance(a[0], VOpt) else a[0]).t))
-        self.spec_natives["effect_names"] = lambda it, a, k: VList(items=[VStr(z3.StringVal(e[0])) for e in it.path.effects[getattr(it, "effects_base", 0):] if e[0] != "Fs"])
+        self.spec_natives["effect_names"] = lambda it, a, k: vals.BOTTOM if getattr(it, "effects_opaque", False) else VList(items=[VStr(z3.StringVal(e[0])) for e in it.path.effects if e[0] != "Fs"])
         def _effect_arg(it, a, k):
             i, j = vals.concrete_int(a[0]), vals.concrete_int(a[1])
-            effs = [e for e in it.path.effects[getattr(it, "effects_base", 0):] if e[0] != "Fs"]
-            if i is None or j is None or i >= len(effs) or j >= len(effs[i]):
+            effs = [e for e in it.path.effects if e[0] != "Fs"]
+            if getattr(it, "effects_opaque", False) or i is None or j is None or i >= len(effs) or j >= len(effs[i]):
                 return vals.BOTTOM
             return effs[i][j]
 
@@ -329,8 +329,20 @@ class Registry:
         return en
 
     # ------------------------------------------------------------------ externals
+    def _ext_contract(self, key):
+        """An ASSUMED contract on a dependency function: @contract("ext:<dotted name>", ...)."""
+        c = self.contracts.get("ext:" + key)
+        if c is None:
+            return None
+        nat = VNative(lambda it_, a, k, c=c: self.call_iface(it_, c, a, k), "ext:" + key)
+        nat.external = True
+        return nat
+
     def external(self, it, modname, attr):
         key = f"{modname}.{attr}"
+        ec = self._ext_contract(key)
+        if ec is not None:
+            return ec
         if key in self.externals:
             x = self.externals[key]
             x = x(it) if callable(x) and not isinstance(x, V) else x
@@ -339,7 +351,7 @@ class Registry:
             return x
         if key in self.ext_classes or key in self.model_classes:
             return VExtClass(key)
-        if modname in ("typing", "collections.abc", "__future__"):
+        if modname in ("typing", "collections.abc", "__future__") or key in ("datetime.datetime", "datetime.date", "datetime.timezone"):
             return VExtClass(key)
         if modname.split(".")[0] in ("icalendar", "vobject", "dateutil", "zoneinfo", "datetime") and (
                 attr[:1].isupper() or (attr[:1] == "v" and attr[1:2].isupper())):
@@ -348,6 +360,9 @@ class Registry:
 
     def extclass_attr(self, it, clsv: VExtClass, name):
         key = f"{clsv.name}.{name}"
+        ec = self._ext_contract(key)
+        if ec is not None:
+            return ec
         if key in self.externals:
             x = self.externals[key]
             return x(it) if callable(x) and not isinstance(x, V) else x
